@@ -57,19 +57,6 @@ def c03_classify(c, i):
     return out
 
 
-def sig_unlisted_stream(c, i, m, k):
-    """every lost line belongs to a stream absent from the offsets saved for its file at the kill (and lies
-    before the minimum saved offset); nothing else went wrong; the Lean oracle computed the same summary"""
-    ti, tm = _tail(i), _tail(m)
-    if not ti or ti != tm:
-        return False
-    if "died" in i or "stuck" in i or any(t.startswith("saved-") for t in i):
-        return False
-    if "T" in _steps(c):
-        return False
-    return all(cls == 0 and lid >= 0 for lid, cls in ti)
-
-
 def _case(c):
     """(table {id: (stream, bytes)}, steps [(op, args…)]) of a case line"""
     n = int(c[6]); k = 7
@@ -89,16 +76,18 @@ def _case(c):
     return table, steps
 
 
-def sig_trunc_multistream(c, i, m, k):
-    """a file carrying two or more streams was truncated while file.d was up, and every lost line was written
-    to that file after the truncation (or the process hit the offset-corruption panic after it)"""
+def _explain(c, i, m):
+    """per lost line the recorded finding that explains it: 'unlisted' (its stream is absent from the
+    offsets saved for its never-truncated file at the kill, and it lies before the minimum saved offset),
+    'trunc' (written after the truncation of a file that carried two or more streams), or None.
+    Returns None when the summary is missing or the Lean oracle computed a different one."""
     ti, tm = _tail(i), _tail(m)
     if ti is None or ti != tm or "stuck" in i or any(t.startswith("saved-") for t in i):
-        return False
+        return None
     try:
         table, steps = _case(c)
     except (ValueError, IndexError):
-        return False
+        return None
     before, after, truncated = {}, {}, set()
     for st in steps:
         if st[0] == "T":
@@ -110,15 +99,44 @@ def sig_trunc_multistream(c, i, m, k):
         streams = {s for (s, d) in table.values() if d and d in bytes(before.get(f, b""))}
         if len(streams) >= 2:
             multi.add(f)
-    if not multi:
+    post_multi = b"".join(bytes(after.get(f, b"")) for f in multi)
+    in_truncated = b"".join(bytes(before.get(f, b"")) + bytes(after.get(f, b"")) for f in truncated)
+    out = []
+    for lid, cls in ti:
+        if lid not in table:
+            out.append(None)
+        elif table[lid][1] in post_multi:
+            out.append("trunc")
+        elif cls == 0 and table[lid][1] not in in_truncated:
+            out.append("unlisted")
+        else:
+            out.append(None)
+    return out, multi
+
+
+def sig_unlisted_stream(c, i, m, k):
+    """at least one lost line is an un-acked line of a stream absent from the saved offsets of its file,
+    every lost line is explained by a recorded finding, the process did not die"""
+    r = _explain(c, i, m)
+    if r is None or "died" in i:
+        return False
+    ex, _ = r
+    return bool(ex) and all(ex) and "unlisted" in ex
+
+
+def sig_trunc_multistream(c, i, m, k):
+    """a file carrying two or more streams was truncated while file.d was up; at least one lost line was
+    written to it after the truncation (or the process hit the offset-corruption panic after it); every
+    lost line is explained by a recorded finding"""
+    r = _explain(c, i, m)
+    if r is None:
+        return False
+    ex, multi = r
+    if not multi or not all(ex):
         return False
     if "died" in i:
-        # only after the truncation was seen by the model trace
         return "trunc" in i and i.index("trunc") < i.index("died")
-    if not ti:
-        return False
-    post = b"".join(bytes(after.get(f, b"")) for f in multi)
-    return all(lid in table and table[lid][1] in post for lid, _ in ti)
+    return "trunc" in ex
 
 
 CFG = {
@@ -146,4 +164,6 @@ CFG = {
     ],
     "timeout": 1500,
     "chunk": 400,
+    "widen_seeds": 2,
+    "widen_cases": 500,
 }
